@@ -634,6 +634,7 @@ Theorem call_site ρ f args kwargs s w s1 :
   exists fr ws ks all ids id,
     assoc f ρ = Some (BFun fr) /\ Forall2 (bound_to ρ) args ws /\ Forall2 (bound_to ρ) (map snd kwargs) ks
     /\ call_args fr ws (map fst kwargs) ks all
+    /\ List.length all = List.length (fn_params fr)       (* one argument per parameter *)
     /\ Forall2 has_id all ids /\ wid w = Some id
     /\ recorded s1 id (ACall ids (fn_id fr)) /\ fun_rec s1 f fr.
 Proof.
@@ -656,6 +657,8 @@ Proof.
       destruct (bind_partial (fn_params fr) ws (combine (map fst (k0 :: kr)) ks)) as [all'| |] eqn:Eb;
         inversion Eall; subst. split; [reflexivity | exact Eb]. }
   destruct Hall as [-> Hall].
+  destruct (Nat.eqb (List.length all) (List.length (fn_params fr))) eqn:Har; [|discriminate H].
+  change (negb true) with false in H. cbv iota in H. apply Nat.eqb_eq in Har.
   unfold mbind at 1 in H. unfold alloc at 1 in H.
   unfold mbind at 1 in H.
   match type of H with (match need_ids all ?st with _ => _ end) = _ =>
